@@ -117,7 +117,9 @@ func Boundaries(t *rapid.T, n int, keyMax int) [][]byte {
 
 // TableFamily is a set of table names that are prefixes of / adjacent to
 // each other under the legal alphabet.
-var TableFamily = []string{"t", "t-", "t.", "t0", "tt", "t_", "T", "ns:t", "ns:t-", "n:t", "s", "u"}
+var TableFamily = []string{"t", "t-", "t.", "t0", "tt", "t_", "T", "ns:t", "ns:t-", "n:t", "s", "u",
+	// same namespace, qualifiers that are suffixes / substrings of one another
+	"ns:tt", "ns:at", "ns:ta", "n:tt", "n:at", "at", "ta"}
 
 // Table draws a table name from TableFamily or a fresh legal one.
 func Table() *rapid.Generator[string] {
